@@ -1,26 +1,53 @@
 #!/usr/bin/env python3
-"""Reads seeded/results-*.txt, updates each seed's meta.json (detected_by) and prints a markdown table."""
-import json, glob, os, re
+"""Reads seeded/results-*.txt, updates each seed's meta.json (detected_by) and injects the two
+tables of DESIGN.md section 8 between their markers."""
+import json, glob, os, re, subprocess
 rows = {}
 for f in sorted(glob.glob('/verif/seeded/results-*.txt')):
     for line in open(f):
         if '::' not in line: continue
         name, rest = line.split('::', 1)
-        name = name.strip()
-        hits = re.findall(r'(C\d\d)\[\s*([^\]]*)\]', rest)
-        rows[name] = hits
-print("| seeded change | breaks | needs to manifest | quick checks that report it (first signature) |")
-print("|---|---|---|---|")
-for name in sorted(rows):
-    d = f'/verif/seeded/{name}'
+        rows[name.strip()] = re.findall(r'(C\d\d)\[\s*([^\]]*)\]', rest)
+
+def clean(sig):
+    sig = re.sub(r'/rustc/[0-9a-f]+/', '', sig)
+    sig = sig.replace('/tmp/rcopy/', '')
+    return sig[:70].replace('|', '/')
+
+seed_lines = ["| seeded change | breaks | needs to manifest | quick checks that report it (first signature of each) |", "|---|---|---|---|"]
+missed = []
+for name in sorted(n for n in rows if os.path.isdir(f'/verif/seeded/{n}')):
     hits = rows[name]
-    if os.path.isdir(d):
-        m = json.load(open(f'{d}/meta.json'))
-        m['detected_by'] = [{'check': h[0], 'tier': 'quick', 'signature': h[1]} for h in hits]
-        json.dump(m, open(f'{d}/meta.json', 'w'), indent=1)
-        needs = m['needs_to_manifest']
-        prop = m['property']
-    else:
-        needs = ''; prop = ''
-    det = '; '.join(f"{h[0]} `{h[1][:60]}`" for h in hits) if hits else '**MISSED**'
-    print(f"| {name} | {prop} | {needs} | {det} |")
+    m = json.load(open(f'/verif/seeded/{name}/meta.json'))
+    m['detected_by'] = [{'check': h[0], 'tier': 'quick', 'signature': clean(h[1])} for h in hits]
+    json.dump(m, open(f'/verif/seeded/{name}/meta.json', 'w'), indent=1)
+    det = '; '.join(f"{h[0]} `{clean(h[1])}`" for h in hits) if hits else '**MISSED by the quick tier**'
+    if not hits: missed.append(name)
+    seed_lines.append(f"| {name} | {m['property']} | {m['needs_to_manifest']} | {det} |")
+n_seeds = len(seed_lines) - 2
+seed_lines.append("")
+seed_lines.append(f"{n_seeds - len(missed)} of {n_seeds} seeded changes are reported by at least one quick check" + (f"; missed: {', '.join(missed)}." if missed else "."))
+
+rev_lines = ["| reverted commit(s) | what the fix repaired | quick checks that report the regression |", "|---|---|---|"]
+rmiss = []
+for name in sorted(n for n in rows if n.startswith('revert-')):
+    hashes = name[len('revert-'):].split('+')
+    subj = ' + '.join(subprocess.run(['git', '-C', '/repo', 'log', '--format=%s', '-1', h], capture_output=True, text=True).stdout.strip().replace('fix: ', '') for h in hashes)
+    hits = rows[name]
+    det = '; '.join(f"{h[0]} `{clean(h[1])}`" for h in hits) if hits else '**not reported by the quick tier**'
+    if not hits: rmiss.append(name)
+    rev_lines.append(f"| {' + '.join(hashes)} | {subj} | {det} |")
+n_rev = len(rev_lines) - 2
+rev_lines.append("")
+rev_lines.append(f"{n_rev - len(rmiss)} of {n_rev} reverts are reported by at least one quick check" + (f"; not reported: {', '.join(rmiss)} (see the notes below the table)." if rmiss else "."))
+
+p = '/verif/DESIGN.md'
+s = open(p).read()
+def inject(s, tag, lines):
+    a = s.index(f'<!-- {tag}-BEGIN -->') + len(f'<!-- {tag}-BEGIN -->')
+    b = s.index(f'<!-- {tag}-END -->')
+    return s[:a] + '\n' + '\n'.join(lines) + '\n' + s[b:]
+s = inject(s, 'SEED-TABLE', seed_lines)
+if n_rev: s = inject(s, 'REVERT-TABLE', rev_lines)
+open(p, 'w').write(s)
+print(f"seeds: {n_seeds} (missed {missed}); reverts: {n_rev} (not reported {rmiss})")
